@@ -95,23 +95,35 @@ func (e *Env) SetExternalLookup(externalLookup ExternalLookup) {
 // String returns string of values and types in current scope.
 func (e *Env) String() string {
 	var buffer bytes.Buffer
-	e.rwMutex.RLock()
 
-	if e.parent == nil {
+	// formatting a value may run its GoString or Format method: take what is to be printed
+	// under the lock and format it after the lock is released
+	e.rwMutex.RLock()
+	hasParent := e.parent != nil
+	values := make(map[string]reflect.Value, len(e.values))
+	for symbol, value := range e.values {
+		values[symbol] = value
+	}
+	types := make(map[string]reflect.Type, len(e.types))
+	for symbol, aType := range e.types {
+		types[symbol] = aType
+	}
+	e.rwMutex.RUnlock()
+
+	if !hasParent {
 		buffer.WriteString("No parent\n")
 	} else {
 		buffer.WriteString("Has parent\n")
 	}
 
-	for symbol, value := range e.values {
+	for symbol, value := range values {
 		buffer.WriteString(fmt.Sprintf("%v = %#v\n", symbol, value))
 	}
 
-	for symbol, aType := range e.types {
+	for symbol, aType := range types {
 		buffer.WriteString(fmt.Sprintf("%v = %v\n", symbol, aType))
 	}
 
-	e.rwMutex.RUnlock()
 	return buffer.String()
 }
 
